@@ -276,8 +276,16 @@ func (m *Machine) sprintf(format string, args []value) value {
 	if allOK {
 		return fmt.Sprintf(format, nat...)
 	}
+	// tuple string: every argument that can be formatted natively is rendered now (with its own verb),
+	// symbolic integers stay as they are; two such strings of the same format are equal iff their
+	// arguments are, and matchFormatted compares one with a concrete string
+	verbs := simpleVerbs(format)
 	var targs []value
-	for _, a := range args {
+	for i, a := range args {
+		if nat, ok := m.nativeArg(a); ok && verbs != nil && i < len(verbs) {
+			targs = append(targs, fmt.Sprintf("%"+string(verbs[i]), nat))
+			continue
+		}
 		if it, ok := a.(iface); ok {
 			targs = append(targs, it.v)
 		} else {
@@ -285,6 +293,28 @@ func (m *Machine) sprintf(format string, args []value) value {
 		}
 	}
 	return &tstr{format: "sym:" + format, args: targs}
+}
+
+// simpleVerbs returns the verbs of a format that uses only plain %s %d %v (and %%), else nil.
+func simpleVerbs(format string) []byte {
+	var vs []byte
+	for i := 0; i < len(format); i++ {
+		if format[i] != '%' {
+			continue
+		}
+		if i+1 >= len(format) {
+			return nil
+		}
+		switch format[i+1] {
+		case 's', 'd', 'v':
+			vs = append(vs, format[i+1])
+		case '%':
+		default:
+			return nil
+		}
+		i++
+	}
+	return vs
 }
 
 func ifaceSlice(v value) []value {
